@@ -1,6 +1,230 @@
-//! C09: harness commands for property C09 (stub).
+//! C09: normalization follows font support.
+//!   rbv c09 props              exhaustive over all scalar values: `d ab a b` for every decomposable character,
+//!                              `p c is_mark mcc is_space space_fallback` where any of them is non-zero
+//!   rbv c09 compose  < pairs   one `a b` pair (hex) per line -> `c a b r` (r = `-` for None)
+//!   rbv c09 shape    < cases   one case `rep;text` per line (hex code points separated by blanks):
+//!                              builds a cmap-only font for `rep` (glyph id = 1 + index in the sorted repertoire),
+//!                              shapes `text` (script Latn, LTR, cluster level 0, no features) and prints
+//!                              `r ch:cluster ...` with ch = the character of the output glyph (0 = .notdef)
+use crate::util::*;
+use rustybuzz::verif::normalize as hook;
+use rustybuzz::{ttf_parser, Direction, Face, Script, UnicodeBuffer};
+use std::io::{BufRead, Write};
 
-pub fn run(_args: &[String]) {
-    eprintln!("c09: not implemented");
-    std::process::exit(2);
+pub fn run(args: &[String]) {
+    quiet_panics();
+    match args.get(0).map(|s| s.as_str()) {
+        Some("props") => props(),
+        Some("compose") => compose(),
+        Some("shape") => shape(),
+        _ => {
+            eprintln!("c09 props|compose|shape");
+            std::process::exit(2)
+        }
+    }
+}
+
+fn props() {
+    let out = std::io::stdout();
+    let mut w = std::io::BufWriter::new(out.lock());
+    for u in 0..0x110000u32 {
+        let Some(c) = char::from_u32(u) else { continue };
+        match catch(move || hook::decompose(c)) {
+            Ok(Some((a, b))) => writeln!(w, "d {:X} {:X} {:X}", u, a as u32, b as u32).unwrap(),
+            Ok(None) => {}
+            Err(e) => writeln!(w, "d {:X} panic {}", u, e).unwrap(),
+        }
+        match catch(move || (hook::info_props(c), hook::modified_combining_class(c))) {
+            Ok(((m, cc, sp, fb), raw)) => {
+                if m || cc != 0 || sp || fb || raw != 0 {
+                    writeln!(w, "p {:X} {} {} {} {} {}", u, m as u8, cc, sp as u8, fb as u8, raw).unwrap();
+                }
+            }
+            Err(e) => writeln!(w, "p {:X} panic {}", u, e).unwrap(),
+        }
+    }
+    writeln!(w, "props-done max_combining_marks={}", hook::MAX_COMBINING_MARKS).unwrap();
+}
+
+fn hexes(s: &str) -> Vec<u32> {
+    s.split_whitespace().filter_map(|x| u32::from_str_radix(x, 16).ok()).collect()
+}
+
+fn compose() {
+    let stdin = std::io::stdin();
+    let out = std::io::stdout();
+    let mut w = std::io::BufWriter::new(out.lock());
+    for line in stdin.lock().lines() {
+        let line = line.unwrap();
+        let v = hexes(&line);
+        if v.len() != 2 {
+            continue;
+        }
+        let (Some(a), Some(b)) = (char::from_u32(v[0]), char::from_u32(v[1])) else {
+            writeln!(w, "c {:X} {:X} notchar", v[0], v[1]).unwrap();
+            continue;
+        };
+        match catch(move || hook::compose(a, b)) {
+            Ok(Some(r)) => writeln!(w, "c {:X} {:X} {:X}", v[0], v[1], r as u32).unwrap(),
+            Ok(None) => writeln!(w, "c {:X} {:X} -", v[0], v[1]).unwrap(),
+            Err(e) => writeln!(w, "c {:X} {:X} panic {}", v[0], v[1], e).unwrap(),
+        }
+    }
+}
+
+// ---------------------------------------------------------------- tiny cmap-only sfnt writer (local to C09)
+
+fn be16(v: &mut Vec<u8>, x: u16) {
+    v.extend_from_slice(&x.to_be_bytes());
+}
+fn be32(v: &mut Vec<u8>, x: u32) {
+    v.extend_from_slice(&x.to_be_bytes());
+}
+
+/// Font with glyph 0 = .notdef and glyph 1 + i for the i-th character of the sorted, deduplicated repertoire.
+pub fn cmap_font(rep_sorted: &[u32]) -> Vec<u8> {
+    let ng = rep_sorted.len() as u16 + 1;
+    let mut head = Vec::new();
+    be32(&mut head, 0x0001_0000); // version
+    be32(&mut head, 0x0001_0000); // fontRevision
+    be32(&mut head, 0); // checkSumAdjustment
+    be32(&mut head, 0x5F0F_3CF5); // magic
+    be16(&mut head, 0); // flags
+    be16(&mut head, 1000); // unitsPerEm
+    head.extend_from_slice(&[0u8; 16]); // created, modified
+    for x in [0i16, -200, 600, 800] {
+        be16(&mut head, x as u16);
+    }
+    be16(&mut head, 0); // macStyle
+    be16(&mut head, 8); // lowestRecPPEM
+    be16(&mut head, 2); // fontDirectionHint
+    be16(&mut head, 0); // indexToLocFormat
+    be16(&mut head, 0); // glyphDataFormat
+    let mut hhea = Vec::new();
+    be32(&mut hhea, 0x0001_0000);
+    be16(&mut hhea, 800);
+    be16(&mut hhea, (-200i16) as u16);
+    be16(&mut hhea, 0);
+    be16(&mut hhea, 600); // advanceWidthMax
+    for _ in 0..11 {
+        be16(&mut hhea, 0); // minLSB, minRSB, xMaxExtent, caret rise/run/offset, 4 reserved, metricDataFormat
+    }
+    be16(&mut hhea, ng); // numberOfHMetrics
+    let mut maxp = Vec::new();
+    be32(&mut maxp, 0x0000_5000);
+    be16(&mut maxp, ng);
+    let mut hmtx = Vec::new();
+    for _ in 0..ng {
+        be16(&mut hmtx, 600);
+        be16(&mut hmtx, 0);
+    }
+    // cmap: one format 12 subtable under platform 3 / encoding 10, one group per run of consecutive characters
+    let mut groups: Vec<(u32, u32, u32)> = Vec::new();
+    for (i, &c) in rep_sorted.iter().enumerate() {
+        let gid = i as u32 + 1;
+        match groups.last_mut() {
+            Some(g) if g.1 + 1 == c => g.1 = c,
+            _ => groups.push((c, c, gid)),
+        }
+    }
+    let mut cmap = Vec::new();
+    be16(&mut cmap, 0);
+    be16(&mut cmap, 1);
+    be16(&mut cmap, 3);
+    be16(&mut cmap, 10);
+    be32(&mut cmap, 12);
+    be16(&mut cmap, 12);
+    be16(&mut cmap, 0);
+    be32(&mut cmap, 16 + 12 * groups.len() as u32);
+    be32(&mut cmap, 0);
+    be32(&mut cmap, groups.len() as u32);
+    for g in &groups {
+        be32(&mut cmap, g.0);
+        be32(&mut cmap, g.1);
+        be32(&mut cmap, g.2);
+    }
+    let mut tables: Vec<(&[u8; 4], Vec<u8>)> =
+        vec![(b"cmap", cmap), (b"head", head), (b"hhea", hhea), (b"hmtx", hmtx), (b"maxp", maxp)];
+    tables.sort_by(|a, b| a.0.cmp(b.0));
+    let n = tables.len() as u16;
+    let mut f = Vec::new();
+    be32(&mut f, 0x0001_0000);
+    be16(&mut f, n);
+    let es = 2u16; // floor(log2(5))
+    be16(&mut f, 16 << es);
+    be16(&mut f, es);
+    be16(&mut f, n * 16 - (16 << es));
+    let mut off = 12 + 16 * tables.len() as u32;
+    for (tag, data) in &tables {
+        f.extend_from_slice(&tag[..]);
+        let mut sum = 0u32;
+        let mut padded = data.clone();
+        while padded.len() % 4 != 0 {
+            padded.push(0);
+        }
+        for ch in padded.chunks(4) {
+            sum = sum.wrapping_add(u32::from_be_bytes([ch[0], ch[1], ch[2], ch[3]]));
+        }
+        be32(&mut f, sum);
+        be32(&mut f, off);
+        be32(&mut f, data.len() as u32);
+        off += padded.len() as u32;
+    }
+    for (_, data) in &tables {
+        f.extend_from_slice(data);
+        while f.len() % 4 != 0 {
+            f.push(0);
+        }
+    }
+    f
+}
+
+fn shape() {
+    let stdin = std::io::stdin();
+    let out = std::io::stdout();
+    let mut w = std::io::BufWriter::new(out.lock());
+    let latn = Script::from_iso15924_tag(ttf_parser::Tag::from_bytes(b"Latn")).unwrap();
+    let mut last_rep: Vec<u32> = Vec::new();
+    let mut font: Vec<u8> = Vec::new();
+    for line in stdin.lock().lines() {
+        let line = line.unwrap();
+        let Some((r, t)) = line.split_once(';') else { continue };
+        let mut rep = hexes(r);
+        rep.sort();
+        rep.dedup();
+        let text = hexes(t);
+        if rep != last_rep || font.is_empty() {
+            font = cmap_font(&rep);
+            last_rep = rep.clone();
+        }
+        let fb = font.clone();
+        let rp = rep.clone();
+        let res = catch(move || {
+            let face = Face::from_slice(&fb, 0).expect("generated font does not parse");
+            let mut b = UnicodeBuffer::new();
+            for (i, cp) in text.iter().enumerate() {
+                b.add(char::from_u32(*cp).expect("not a scalar value"), i as u32);
+            }
+            b.set_direction(Direction::LeftToRight);
+            b.set_script(latn);
+            let gb = rustybuzz::shape(&face, &[], b);
+            let mut s = String::new();
+            for (k, gi) in gb.glyph_infos().iter().enumerate() {
+                let ch = if gi.glyph_id == 0 {
+                    0
+                } else {
+                    *rp.get(gi.glyph_id as usize - 1).unwrap_or(&0xFFFF_FFFF)
+                };
+                if k > 0 {
+                    s.push(' ');
+                }
+                s.push_str(&format!("{:X}:{}", ch, gi.cluster));
+            }
+            s
+        });
+        match res {
+            Ok(s) => writeln!(w, "r {}", s).unwrap(),
+            Err(e) => writeln!(w, "r panic {}", e).unwrap(),
+        }
+    }
 }
